@@ -37,12 +37,16 @@ def norm(items):
         elif t == "Prim":
             n = dict(it)
             # OCTET STRING / BIT STRING wrapping a nested DER value
-            if it["args"] and isinstance(core(it["args"][0]), DerV):
+            if "inner" in it:
+                n["inner"] = norm(it["inner"])      # already derived (and possibly specialised): keep it
+            elif it["args"] and isinstance(core(it["args"][0]), DerV):
                 n["inner"] = norm(core(it["args"][0]).items)
             out.append(n)
         elif t == "Raw":
             n = dict(it)
-            if isinstance(core(it["v"]), DerV):
+            if "inner" in it:
+                n["inner"] = norm(it["inner"])
+            elif isinstance(core(it["v"]), DerV):
                 n["inner"] = norm(core(it["v"]).items)
             out.append(n)
         else:
@@ -155,23 +159,49 @@ def walk(items, path=(), cond=True, reps=()):
                 yield from walk(it["inner"], path + (("inner", it),), cond, reps)
 
 
+def pe_formula(f, asg):
+    """partial evaluation of a formula under a partial atom assignment"""
+    if f is True or f is False:
+        return f
+    if f[0] == "atom":
+        return asg.get(f[1], f)
+    if f[0] == "not":
+        return Not(pe_formula(f[1], asg))
+    if f[0] == "and":
+        return And(*[pe_formula(g, asg) for g in f[1]])
+    return Or(*[pe_formula(g, asg) for g in f[1]])
+
+
+def assume_ref(items, asg):
+    """`assume` for reference nodes (textual formulas, no interpreter values): Cond nodes whose formula becomes false
+    disappear, those whose formula becomes true are replaced by their children."""
+    out = []
+    for it in items:
+        n = dict(it)
+        for key in ("c", "inner"):
+            if key in it and isinstance(it[key], list):
+                n[key] = assume_ref(it[key], asg)
+        if it["t"] == "Cond":
+            f = pe_formula(F.parse(it["f"]) if isinstance(it["f"], str) else it["f"], asg)
+            if f is False:
+                continue
+            if f is True:
+                out.extend(n["c"])
+                continue
+            n["f"] = f
+        out.append(n)
+    return out
+
+
 def assume(items, asg):
     """Partially evaluate Cond formulas under a partial atom assignment {atom_key: bool}."""
     def pe(f):
-        if f is True or f is False:
-            return f
-        if f[0] == "atom":
-            return asg.get(f[1], f)
-        if f[0] == "not":
-            return Not(pe(f[1]))
-        if f[0] == "and":
-            return And(*[pe(g) for g in f[1]])
-        return Or(*[pe(g) for g in f[1]])
+        return pe_formula(f, asg)
     out = []
     for it in items:
         n = dict(it)
         if it["t"] == "Cond":
-            n["f"] = pe(it["f"])
+            n["f"] = pe(F.parse(it["f"]) if isinstance(it["f"], str) else it["f"])
         for key in ("c", "inner"):
             if key in it:
                 n[key] = assume(it[key], asg)
@@ -408,6 +438,8 @@ class Matcher:
                 if not fslots:
                     self.err(path + (key,), "expected element is never written", expected=self.label(rslots[0][2]) + " when " + F.show(rslots[0][0]), found="absent")
                     continue
+            if len(rslots) > 1 and self._match_by_cases(rslots, fslots, path + (key,)):
+                continue
             # pair by condition equivalence first
             rem = list(fslots)
             for rslot in rslots:
@@ -429,6 +461,66 @@ class Matcher:
         for key, fslots in fk.items():
             for s_ in fslots:
                 self.err(path + (key,), "unexpected element (not in the reference schema)", s_[2].get("sp"), expected="nothing", found=self.label(s_[2]) + " when " + F.show(s_[0]))
+
+    def _match_by_cases(self, rslots, fslots, path):
+        """The reference lists one element per exclusive case of an enum-valued place (`is_ca is Ca`, `is_ca is
+        ExplicitNoCa`); the code may write it once per case or once for several cases.  Each reference case is matched
+        against the found element(s) *specialised to that case*; together the found elements must not be written
+        outside the reference cases.  Returns False when the reference conditions are not such cases."""
+        universe = []
+
+        def collect(items):
+            for it in items:
+                if it["t"] == "Cond" and not isinstance(it["f"], str):
+                    for a in F.atoms(it["f"]):
+                        if a not in universe:
+                            universe.append(a)
+                for k_ in ("c", "inner"):
+                    if k_ in it:
+                        collect(it[k_])
+        for fc, fr, fn_ in fslots:
+            for a in F.atoms(fc):
+                if a not in universe:
+                    universe.append(a)
+            collect([fn_])
+        cases = []
+        for rc, rr, rn in rslots:
+            parts = [rc] if (rc is not True and rc is not False and rc[0] == "atom") else (list(rc[1]) if rc is not True and rc is not False and rc[0] == "and" else None)
+            if not parts or any(p_[0] != "atom" or p_[1][0] != "variant" for p_ in parts):
+                return False
+            asg = {}
+            for p_ in parts:
+                _, place, var = p_[1]
+                for a in universe:
+                    if a[0] == "variant" and a[1] == place:
+                        asg[a] = (a[2] == var)
+                asg[p_[1]] = True
+            cases.append(asg)
+
+        def pe(f, asg):
+            return pe_formula(f, asg)
+
+        def one(node, asg):
+            r_ = assume([node], asg)
+            return r_[0] if len(r_) == 1 else node
+        for (rc, rr, rn), asg in zip(rslots, cases):
+            alive = []
+            for fc, fr, fn_ in fslots:
+                fc2 = pe(fc, asg)
+                if fc2 is False:
+                    continue
+                alive.append((fc2, fr, one(fn_, asg)))
+            if len(alive) != 1:
+                self.err(path, "expected element is not written exactly once in this case", expected=F.show(rc), found="%d element(s)" % len(alive))
+                continue
+            rn2 = assume_ref([rn], asg)
+            self.match_slot((True, rr, rn2[0] if len(rn2) == 1 else rn), alive[0], path + ("case " + F.show(rc),))
+        allf = Or(*[fc for fc, _, _ in fslots])
+        allr = Or(*[rc for rc, _, _ in rslots])
+        ce, _ = F.counterexample(allf, allr, "implies")
+        if ce is not None:
+            self.err(path, "element is also written outside the reference cases: when " + F.show_asg(ce), expected=F.show(allr), found=F.show(allf))
+        return True
 
     def _depends_on(self, slot, place):
         cond, reps, node = slot
